@@ -75,4 +75,109 @@ theorem floor_bounds (X A S s : Nat) (hA : 0 < A) (hs : 0 < s)
     have := Nat.lt_of_mul_lt_mul_right key
     omega
 
+theorem maxHash_le (t : Nat) : maxHashForScaled t ≤ 2 ^ 64 - 1 := by
+  match t with
+  | 0 => decide
+  | 1 => decide
+  | n + 2 => rw [maxHash_eq (n + 2) (by omega)]; exact sat_le _
+
+theorem maxHash_antitone_ge2 (s t : Nat) (hs : 2 ≤ s) (hst : s ≤ t) :
+    maxHashForScaled t ≤ maxHashForScaled s := by
+  rw [maxHash_eq s hs, maxHash_eq t (by omega)]
+  apply sat_mono
+  have hm := rnNat_mono s t (by omega) hst
+  have ps := rnNat_pos s (by omega)
+  have pt := rnNat_pos t (by omega)
+  have p64 : 0 < 2 ^ 64 := Nat.pow_pos (by decide)
+  apply div_le_div_cross _ _ _ _ (den_pos _) (den_pos _)
+  exact rnDiv_mono (2 ^ 64) (rnNat t) (2 ^ 64) (rnNat s) p64 pt p64 ps (Nat.mul_le_mul_left _ hm)
+
+/-- the truncated quotient does not saturate and is within the stated distance of 2^64/s -/
+theorem maxHash_bounds (s : Nat) (hs : 2 ≤ s) :
+    maxHashForScaled s * s ≤ 2 ^ 64 + 2 ^ 12 ∧ 2 ^ 64 + 1 ≤ (maxHashForScaled s + 1) * s + 2 ^ 12 := by
+  have p64 : 0 < 2 ^ 64 := Nat.pow_pos (by decide)
+  have ps := rnNat_pos s (by omega)
+  have h1 := rnDiv_approx (2 ^ 64) (rnNat s) p64 ps
+  have h2 := rnNat_approx s (by omega)
+  have hA := den_pos (rnDiv (2 ^ 64) (rnNat s))
+  have ⟨k1, k2⟩ := floor_bounds _ _ _ s hA (by omega) h1 h2
+  rw [maxHash_eq s hs]
+  generalize num (rnDiv (2 ^ 64) (rnNat s)) / den (rnDiv (2 ^ 64) (rnNat s)) = M at *
+  have hlt : M < 2 ^ 64 := by
+    have := Nat.mul_le_mul_left M hs
+    omega
+  rw [sat_of_lt hlt]
+  exact ⟨k1, k2⟩
+
+theorem round_bounds (X2 A2 M s : Nat) (hA : 0 < A2) (hs2 : 2 ≤ s) (hs : s ≤ 2 ^ 31)
+    (h : Approx X2 A2 (2 ^ 64) M) (k1 : M * s ≤ 2 ^ 64 + 2 ^ 12)
+    (k2 : 2 ^ 64 + 1 ≤ (M + 1) * s + 2 ^ 12) : (2 * X2 + A2) / (2 * A2) = s := by
+  have c1 : (M + 1) * s ≤ (M + 1) * 2 ^ 31 := Nat.mul_le_mul_left _ hs
+  have c2 : (M + 1) * s = M * s + s := by grind
+  have hM : 2 ^ 33 - 2 ≤ M := by omega
+  have hMpos : 0 < M * 2 ^ 53 := by omega
+  have hKlo : 2 ^ 64 - 2 ^ 12 - 2 ^ 31 ≤ M * s := by omega
+  have q1 := Nat.mul_le_mul_right A2 hKlo
+  have q2 := Nat.mul_le_mul_right A2 k1
+  have q3 := Nat.mul_le_mul_right A2 hM
+  have b1 := h.up_n
+  have b2 := h.dn_n
+  have h2A : 0 < 2 * A2 := by omega
+  apply Nat.le_antisymm
+  · apply Nat.le_of_lt_succ
+    rw [Nat.div_lt_iff_lt_mul h2A]
+    apply Nat.lt_of_mul_lt_mul_right (a := M * 2 ^ 53)
+    have e1 : (2 * X2 + A2) * (M * 2 ^ 53) = 2 ^ 53 * (2 * (X2 * M) + M * A2) := by grind
+    have e2 : (s + 1) * (2 * A2) * (M * 2 ^ 53) = 2 ^ 53 * (2 * (M * s * A2) + 2 * (M * A2)) := by grind
+    rw [e1, e2]
+    omega
+  · rw [Nat.le_div_iff_mul_le h2A]
+    apply Nat.le_of_mul_le_mul_right _ hMpos
+    have e1 : (2 * X2 + A2) * (M * 2 ^ 53) = 2 ^ 53 * (2 * (X2 * M) + M * A2) := by grind
+    have e2 : s * (2 * A2) * (M * 2 ^ 53) = 2 ^ 53 * (2 * (M * s * A2)) := by grind
+    rw [e1, e2]
+    omega
+
+/-- `⌊m·2^b / 2^a⌋` with `m ≤ 2^53` and `a = 0 ∨ b = 0` has at most 53 significant bits -/
+theorem rnNat_floor (n d : Nat) (hn : 0 < n) (hd : 0 < d)
+    (hpos : 0 < num (rnDiv n d) / den (rnDiv n d)) :
+    rnNat (num (rnDiv n d) / den (rnDiv n d)) = num (rnDiv n d) / den (rnDiv n d) := by
+  obtain ⟨m, a, b, hab, h, x, y⟩ := rnDiv_nd n d hn hd
+  rw [x, y] at hpos ⊢
+  have hm := h.m_le hd
+  rcases hab with rfl | rfl
+  · simp only [Nat.pow_zero, Nat.div_one] at hpos ⊢
+    exact rnNat_exact m b (by have := h.m_ge hd; omega) hm
+  · simp only [Nat.pow_zero, Nat.mul_one] at hpos ⊢
+    apply rnNat_small _ hpos
+    exact Nat.le_trans (Nat.div_le_self _ _) hm
+
+theorem roundtrip_ge2 (s : Nat) (hs2 : 2 ≤ s) (hs : s ≤ 2 ^ 31) :
+    scaledForMaxHash (maxHashForScaled s) = s := by
+  have ⟨k1, k2⟩ := maxHash_bounds s hs2
+  have c1 : (maxHashForScaled s + 1) * s ≤ (maxHashForScaled s + 1) * 2 ^ 31 := Nat.mul_le_mul_left _ hs
+  have hMpos : 1 ≤ maxHashForScaled s := by omega
+  have p64 : 0 < 2 ^ 64 := Nat.pow_pos (by decide)
+  -- the ceiling converts back to binary64 exactly
+  have hex : rnNat (maxHashForScaled s) = maxHashForScaled s := by
+    have hsm : rnNat s = s := rnNat_small s (by omega) (by omega)
+    have hM := maxHash_eq s hs2
+    rw [hsm] at hM
+    have hlt : num (rnDiv (2 ^ 64) s) / den (rnDiv (2 ^ 64) s) < 2 ^ 64 := by
+      rcases Nat.lt_or_ge (num (rnDiv (2 ^ 64) s) / den (rnDiv (2 ^ 64) s)) (2 ^ 64) with h | h
+      · exact h
+      · exfalso
+        have : sat (num (rnDiv (2 ^ 64) s) / den (rnDiv (2 ^ 64) s)) = 2 ^ 64 - 1 := by
+          unfold sat; simp [h]
+        rw [this] at hM
+        rw [hM] at k1
+        omega
+    rw [sat_of_lt hlt] at hM
+    rw [hM]
+    exact rnNat_floor (2 ^ 64) s p64 (by omega) (by rw [← hM]; exact hMpos)
+  rw [scaled_eq _ hMpos, hex]
+  have happ := rnDiv_approx (2 ^ 64) (maxHashForScaled s) p64 hMpos
+  rw [round_bounds _ _ _ s (den_pos _) hs2 hs happ k1 k2]
+  exact sat_of_lt (by omega)
+
 end Scaled
